@@ -52,19 +52,19 @@ CHECKS = {
                 note="Trusted: std::sync::Once (lazy_static), std_detect's atomic cache, rustc's auto-trait and borrow checking. One-time initialisation itself is not re-verified.",
                 technique="whole-workspace static/effect inventory over compiler item tables; who-may-call rule for lazy initialisers; compile-pass auto-trait witnesses"),
     "C04": dict(level=TV, design="3/C04",
-                text="BLAKE compression function for every Machine instantiation and through the run-time dispatcher (symbolic chaining value, block, counter) equals the final-round specification with recomputed constants; Default gives the specified IVs; finalize_into_dirty is specialised to EVERY buffer position (64 resp. 128 per variant, 384 in all) with the compression function as an uninterpreted symbol on both sides and must feed exactly the specified padded blocks, counters and output truncation. Together with C17 (counter arithmetic) this decides the property for all messages.",
+                text="BLAKE compression function for every Machine instantiation and through the run-time dispatcher (symbolic chaining value, block, counter) equals the final-round specification with recomputed constants; Default gives the specified IVs; finalize_into_dirty is specialised to EVERY buffer position (64 resp. 128 per variant, 384 in all) with the compression function as an uninterpreted symbol on both sides and must feed exactly the specified padded blocks, counters and output truncation. Together with C17 (counter arithmetic) this decides the property for all messages. R4.6 end to end: Default -> update(chunk)* -> finalize_into_dirty through the real MIR with no hook on any function of the crate (all dispatch arms joined), on symbolic message bytes for lengths around 0..3 blocks in several chunkings, equals the specified BLAKE hash; R4.7 update feeds exactly the complete blocks with the double-word counter.",
                 note="Trusted: spec/blake.py (validated against the submission vectors), models of core slice functions; block-buffer is interpreted from its real MIR. Message lengths beyond the format limit are outside the domain.",
                 technique="value-graph normalisation of MIR vs reference; exhaustive case split over the buffer position (a selector the code only compares and indexes with)"),
     "C05": dict(level=TV, design="3/C05",
-                text="UBI step, configuration block and initial tweak, the lazy final block (update on symbolic data for boundary position/length pairs), and finalize_into_dirty for every buffer position 0..=block size of seven instantiations (N = 1, 7, 32, 64, 128, 200; multi-block and odd outputs) are compared as value graphs with Skein 1.3, Threefish being the same uninterpreted symbol on both sides (decided separately by C09).",
+                text="UBI step, configuration block and initial tweak, the lazy final block (update on symbolic data for boundary position/length pairs), and finalize_into_dirty for every buffer position 0..=block size of seven instantiations (N = 1, 7, 32, 64, 128, 200; multi-block and odd outputs) are compared as value graphs with Skein 1.3, Threefish being the same uninterpreted symbol on both sides (decided separately by C09). R5.6 end to end (Default, update chunks, finalize = Skein hash with the real Threefish on both sides); 18 output-size instantiations.",
                 note="Trusted: spec/skein.py (validated against the golden KATs), core models; block-buffer/block-padding interpreted from real MIR. Output sizes are type-level, so the named instantiations are covered, not all N.",
                 technique="compositional value-graph normalisation (Threefish as uninterpreted function), exhaustive split over buffer positions"),
     "C06": dict(level=TV, design="3/C06",
-                text="The bit-sliced F8 (f8_impl<M>, every Machine, and through the run-time dispatcher) is compared on a symbolic state and block with the nibble-oriented F8 of the JH specification (grouping, 42 rounds S/L/P8, constants generated by R6 from sqrt(2), de-grouping); the S-box layer is an uninterpreted function on both sides and the real bit-sliced `ss` is separately shown to be exactly S0/S1 on each of its 256 bit columns by complete truth tables; `l` equals the MDS map; initial values equal F8(H(-1),0) computed by the reference model; padding/length/truncation for every buffer position of all four variants.",
+                text="The bit-sliced F8 (f8_impl<M>, every Machine, and through the run-time dispatcher) is compared on a symbolic state and block with the nibble-oriented F8 of the JH specification (grouping, 42 rounds S/L/P8, constants generated by R6 from sqrt(2), de-grouping); the S-box layer is an uninterpreted function on both sides and the real bit-sliced `ss` is separately shown to be exactly S0/S1 on each of its 256 bit columns by complete truth tables; `l` equals the MDS map; initial values equal F8(H(-1),0) computed by the reference model; padding/length/truncation for every buffer position of all four variants. R6.8 end to end (Default, update chunks, finalize = JH hash; S-box layer uninterpreted on both sides).",
                 note="Trusted: spec/jh.py (validated against the KATs), intrinsic models (bit-group swaps), normalisation laws. Unlike planned in the design, the bit-sliced/nibble equivalence and the constant tables are decided, not assumed.",
                 technique="compositional value-graph normalisation (S-box layer uninterpreted + complete truth tables of the S-box layer), exhaustive split over buffer positions"),
     "C07": dict(level=TV, design="3/C07",
-                text="Whole-chain value graphs new(h) -> input(m1)[-> input(m2)] -> finalize for the 512- and 1024-bit compressors, for each of the three dispatch arms, equal Omega(f(f(h,m1),m2)) of the Groestl specification with the AES S-box uninterpreted on both sides (MixBytes' GF(2^8) arithmetic, ShiftBytes, round constants and the transposed internal layout are compared bit-exactly); padding, block counting and truncation for every buffer position of all four hashers; IV; update's block counting on boundary cases.",
+                text="Whole-chain value graphs new(h) -> input(m1)[-> input(m2)] -> finalize for the 512- and 1024-bit compressors, for each of the three dispatch arms, equal Omega(f(f(h,m1),m2)) of the Groestl specification with the AES S-box uninterpreted on both sides (MixBytes' GF(2^8) arithmetic, ShiftBytes, round constants and the transposed internal layout are compared bit-exactly); padding, block counting and truncation for every buffer position of all four hashers; IV; update's block counting on boundary cases. R7.7 end to end per dispatch arm (Default, update chunks, finalize = Groestl hash); arms are selected by pinning the CPU-detection results, the lazy_static dispatcher is interpreted from its MIR.",
                 note="Trusted: spec/groestl.py (validated against KATs with the S-box computed from its definition), intrinsic models incl. AESENCLAST. Block counts are symbolic 64-bit values, so 'beyond 255 / 65535 blocks' is covered by the padding rule.",
                 technique="compositional value-graph normalisation (S-box uninterpreted), exhaustive split over buffer positions"),
     "C08": dict(level="other", design="3/C08",
@@ -72,11 +72,11 @@ CHECKS = {
                 note="Chunk lengths are a finite boundary family (0, 1, block-1, block, block+1, many blocks) per buffer position; block-buffer is interpreted from its real MIR, so its dependence on lengths is what is being exercised.",
                 technique="type-shape analysis + value-graph comparison of state transformers (composition vs. concatenation)"),
     "C17": dict(level=TV, design="3/C17",
-                text="All length/bit/block counters are symbolic full-width words in the update and finalisation value graphs of the four hash families: BLAKE's double-word bit counter with carry, Skein's byte tweak, Groestl's block counter and final count, JH's byte length and 64-bit bit-length field - so exactness holds across every word boundary, not just the sampled ones. Plus a def-use taint rule: no narrowing integer cast on a slice length or counter field anywhere in the hash crates, and 64-bit counter field types.",
+                text="All length/bit/block counters are symbolic full-width words in the update and finalisation value graphs of the four hash families: BLAKE's double-word bit counter with carry, Skein's byte tweak, Groestl's block counter and final count, JH's byte length and 64-bit bit-length field - so exactness holds across every word boundary, not just the sampled ones. Plus a def-use taint rule: no narrowing integer cast on a slice length or counter field anywhere in the hash crates, and 64-bit counter field types. Counter fields are recognised by type (integer or pair of words next to the block buffer / in Skein's State); the taint follows checked-arithmetic pairs.",
                 note="Per-block functions are uninterpreted here (C04-C07 decide them for symbolic counters). Format limits (counter overflow beyond 2^64 etc.) are outside the domain.",
                 technique="value-graph normalisation with symbolic counters + MIR def-use taint (narrowing casts)"),
     "C03": dict(level="other", design="3/C03",
-                text="Value level: ChaCha refill/refill4, the BLAKE-256/512 compression dispatcher and JH f8 are evaluated THROUGH their dispatchers on symbolic inputs in every build configuration - std run-time dispatch with all arms joined over free CPU-detection symbols, no_simd portable, and (thorough) five no-std builds with compile-time features sse2..avx2 - and must equal the one reference definition, hence each other; no arm may contain an operand-dependent panic. Structure: feature adequacy of all 39 run-time arms (required <= enabled <= implied by dominating detection), one fn_impl body per site with positional forwarding, Machine::instance() only in arms and only via unsafe (compile_fail witness).",
+                text="Value level: ChaCha refill/refill4, the BLAKE-256/512 compression dispatcher and JH f8 are evaluated THROUGH their dispatchers on symbolic inputs in every build configuration - std run-time dispatch with all arms joined over free CPU-detection symbols, no_simd portable, and (thorough) five no-std builds with compile-time features sse2..avx2 - and must equal the one reference definition, hence each other; no arm may contain an operand-dependent panic. Structure: feature adequacy of all 39 run-time arms (required <= enabled <= implied by dominating detection), one fn_impl body per site with positional forwarding, Machine::instance() only in arms and only via unsafe (compile_fail witness). R3.6: the Machine-generic bodies instantiated for several backends (from the instance graph alone) must be exactly the bodies of the recognised dispatch sites (sites/arms/bodies are found structurally, not by macro-internal names).",
                 note="Vocabulary-level equality per backend is C12/C13. SSE4.1 and AVX machines are the same types. Groestl's private dispatcher is not a ppv-lite86 backend and is not covered here. Big-endian cfg twins are not compiled on this target.",
                 technique="value graphs through dispatchers in 7 configurations + target-feature dataflow over the mono call graph with dominators"),
     "C02": dict(level="other", design="3/C02",
